@@ -729,17 +729,20 @@ def rule_no_ambient_input(cm, rep, rid):
         rep.ok(rid, 'returned-text', 'no identity/time/environment-dependent value reaches the returned text', entry.loc())
 
 
-def rf_pipeline(cm):
+def rf_pipeline(cm, view=False):
+    """the compile pipeline function; view=True: its helper-inlined view (for rules about the steps inside it)"""
     from .rules_front import pipeline_function
     from .eng import EngineModel
-    em = EngineModel(cm.repo)
-    return pipeline_function(em)[0]
+    em = getattr(cm, '_em_for_pipeline', None) or EngineModel(cm.repo)
+    cm._em_for_pipeline = em
+    v = pipeline_function(em)[0]
+    return v if view else v.origin
 
 
 def rule_fresh_pipeline(cm, rep, rid):
     rep.rule(rid, 'lexer, token stream, parser, visitor, compiler and emitter objects are constructed inside the per-call '
                   'entry function and do not escape it; every counter they use is an instance field initialised in a constructor')
-    f = rf_pipeline(cm)
+    f = rf_pipeline(cm, view=True)
     ctor_locals = {}
     for s in own_nodes_ordered(f.node):
         if isinstance(s, ast.Assign) and isinstance(s.value, ast.Call) and isinstance(s.value.func, ast.Name) and \
@@ -751,8 +754,14 @@ def rule_fresh_pipeline(cm, rep, rid):
     for name, s in sorted(ctor_locals.items()):
         esc = None
         for x in own_nodes_ordered(f.node):
-            if isinstance(x, ast.Return) and x.value is not None and any(is_name(y, name) for y in ast.walk(x.value)):
-                esc = x
+            if isinstance(x, ast.Return) and x.value is not None:
+                for y in ast.walk(x.value):
+                    if is_name(y, name):
+                        pa = getattr(y, '_parent', None)
+                        gp = getattr(pa, '_parent', None)
+                        if isinstance(pa, ast.Attribute) and pa.value is y and isinstance(gp, ast.Call) and gp.func is pa:
+                            continue        # the receiver of a method call: its result is returned, not the object
+                        esc = x
             if isinstance(x, ast.Assign) and is_name(x.value, name) and any(isinstance(t, (ast.Attribute, ast.Subscript)) for t in x.targets):
                 esc = x
             if isinstance(x, ast.Global) and name in x.names:
